@@ -14,11 +14,13 @@ CALLS = ["dump 0", "read 0 100", "read 0 1", "read 0 100000", "validate_checksum
          "range_free 1", "reset_failed 0", "valid 0", "close 0"]
 
 
-def script_for(cid, path, target_path, other_path, rnd, order=None):
+def script_for(cid, path, target_path, other_path, rnd, order=None, cap=0, loglevel=None):
+    """cap: every read(2) on the input returns at most cap bytes (a pipe or socket delivers a file in pieces: short
+    counts that are not the end of the file); loglevel: the library's logging turned up (stderr is discarded)"""
     calls = list(CALLS)
     if order == "shuffle":
         rnd.shuffle(calls)
-    lines = ["case %s 10" % cid, "ctx 0", "open 0 %s r" % path, "init_read 0 0"] + calls
+    lines = ["case %s 10" % cid] + (["loglevel %d" % loglevel] if loglevel is not None else []) + ["ctx 0", "open 0 %s r" % path] + (["shim_cap 0 %d" % cap] if cap else []) + ["init_read 0 0"] + calls
     # as a delta source for a valid target, and as a target for a valid source
     lines += ["ctx 1", "open 1 %s rw" % target_path, "init_read 1 1", "copy_chunks 0 1", "find_matching 0 1",
               "ctx 2", "open 2 %s r" % other_path, "init_read 2 2",
@@ -88,7 +90,8 @@ def run(tier):
         names[cid] = name
         path = os.path.join(wd, cid + ".zck"); open(path, "wb").write(b); open(path + ".rw", "wb").write(b)
         tpath = os.path.join(wd, cid + ".tgt"); open(tpath, "wb").write(valid[:ref.parse_header(valid).hdr_total])
-        scripts.append(script_for(cid, path, tpath, vo, rnd, "shuffle" if i % 3 == 2 else None))
+        scripts.append(script_for(cid, path, tpath, vo, rnd, "shuffle" if i % 3 == 2 else None,
+                                  cap=(0, 0, 0, 0, 300, 0, 60, 0, 0, 7, 0)[i % 11], loglevel=(0 if i % 13 == 5 else None)))
     nproc = 14
     parts = ["".join(scripts[i::nproc]) for i in range(nproc)]
     errf = os.path.join(wd, "asan.err")
